@@ -187,6 +187,10 @@ def build_plan(tier, rng):
             toks, what, balanced = ag.deviate(ag.instance(ty, rng), rng)
             b = {"site": ag.SITES[(di + 8 + i) % 11], "conf": what == "comment", "what": what, "tokens": toks}
             (blocks if balanced else single).append(b)
+        for i in range(3):
+            toks, flipped = ag.instance_wrong_blockform(ty, rng)
+            if flipped:
+                blocks.append({"site": ag.SITES[(di + i) % 11], "conf": False, "what": "blockform", "tokens": toks})
         rng.shuffle(blocks)
         plan.add_doc(decls, None, blocks, False, f"def{di}/infile")
         plan.add_doc(decls, None, blocks, True, f"def{di}/infile-strict")
@@ -250,16 +254,18 @@ def run(tier, selftest):
     inp = os.path.join(vlib.scratch(), "c18_docs.ndjson")
     outp = os.path.join(vlib.scratch(), "c18_docs.out")
     vlib.write_ndjson(inp, plan.docs)
-    rc, _, err = vlib.run_harness(binp, ["load-op", "--cases", inp, "--out", outp], timeout=3000)
-    if rc != 0:
-        vlib.tool_error(f"load-op failed rc={rc}: {err[-500:]}")
-    dres = [json.loads(l) for l in open(outp) if l.strip()]
+    dres, hangs = vlib.run_cases_resilient(binp, "load-op", inp, outp, len(plan.docs))
+    for r in dres:
+        if r.get("hang") and not r.get("not_run"):
+            r["panic"] = "load / write / cleanup did not return (hang, no progress for 20 s)"
     nblocks = nconf = 0
     observed_values = {}
     for case, meta, r in zip(plan.docs, plan.meta, dres):
         replay = {"kind": "doc", "label": meta["label"], "text": case["text"], "a2ml": case.get("a2ml"), "strict": case["strict"]}
+        if r.get("not_run"):
+            continue
         if "panic" in r or "tokens" not in r:
-            rep.violation("doc:panic", f"load panicked or did not tokenize ({meta['label']}): {r.get('panic') or r.get('tok_error')}", replay)
+            rep.violation("doc:hang" if r.get("hang") else "doc:panic", f"load panicked or did not tokenize ({meta['label']}): {r.get('panic') or r.get('tok_error')}", replay)
             continue
         toks = [tuple(t) for t in r["tokens"]]
         slices = ag.ifdata_slices(toks)
